@@ -361,6 +361,7 @@ class HistProfile(object):
         self.p_rerun_any = 0.0      # rerun requested although the workflow has not completed
         self.p_dup_report = 0.0     # a second, conflicting completion report for a finished action
         self.p_late_running = 0.3   # after a pre-running report, `running` arrives later
+        self.p_lazy_start = 0.0     # an offered (non-items) task is not started in this round; it is offered again
         for k, v in kw.items():
             setattr(self, k, v)
 
@@ -406,6 +407,8 @@ class History(object):
         for o in offers:
             if o["id"] in CMDS:
                 continue   # an engine command offered as a task (finding D19): a provider cannot run it
+            if self.hp.p_lazy_start and o["items_count"] is None and self.rng.random() < self.hp.p_lazy_start:
+                continue   # not started yet; get_next_tasks offers it again
             for a in o["actions"]:
                 key = (o["id"], o["route"], a["item_id"])
                 late = False
@@ -514,6 +517,14 @@ class History(object):
                         self.complete_one()
                         if hp.p_persist and rng.random() < hp.p_persist / 2:
                             self.play({"op": "persist"})
+                continue
+            answerable = [x for x in self.parked if x[1] == "pending" and x[0][2] is None]
+            if answerable and st in ("paused", "pausing") and rng.random() < 0.5:
+                # an inquiry is answered while the workflow rests paused
+                x = rng.choice(answerable)
+                self.parked.remove(x)
+                failed = self.plan(x[0][0])
+                self.report(x[0], "failed" if failed else "succeeded", rng.choice([1, "r", None]))
                 continue
             if self.parked and st in ("running", "resuming"):
                 i = rng.randrange(len(self.parked))
